@@ -20,7 +20,7 @@ from mc.engine.core import Collector, Result, Violation, jstrict
 
 PLAN = {
     "quick": [("M1", 3), ("M2", 3), ("M3", 3), ("M4", 3), ("M5", 3), ("M4b", 4)],
-    "thorough": [("M1", 4), ("M2", 4), ("M3", 4), ("M4", 4), ("M5", 4), ("M4b", 6)],
+    "thorough": [("M1", 4), ("M2", 4), ("M3", 3), ("M4", 4), ("M5", 4), ("M4b", 6)]  # M3 at 4 free calls exceeds 25 min on 16 cores,
 }
 
 
